@@ -149,17 +149,26 @@ def run_check(pid, tier, seed, jobs, budget_s, runs_override=None):
         status = 1
     if viol is not None:
         sig = viol['violation']['signature']
-        small = core.minimise(mod, viol['plan'], sig)
-        stable = core.reproduces(mod, small, sig) and core.reproduces(mod, small, sig)
+        prefix = []
+        if not core.reproduces(mod, viol['plan'], sig):
+            # not reproducible from a fresh process: it needs state left behind
+            # by earlier runs of its batch -- the replay is then that sequence
+            prefix = viol.get('prefix', [])
+            if not prefix or not core.reproduces(mod, viol['plan'], sig, prefix):
+                raise HarnessError('violation %s at idx %d does not replay' % (sig, viol['idx']))
+            prefix = core.minimise_prefix(mod, prefix, viol['plan'], sig)
+        small = core.minimise(mod, viol['plan'], sig, prefix=prefix,
+                              max_exec=300 if not prefix else 120)
+        stable = core.reproduces(mod, small, sig, prefix) and core.reproduces(mod, small, sig, prefix)
         if not stable:
             small = viol['plan']
-            if not core.reproduces(mod, small, sig):
-                raise HarnessError('violation %s at idx %d does not replay' % (sig, viol['idx']))
-        res = core.execute(mod, small)
+        res = core.execute_seq(mod, list(prefix) + [small])[-1]
         v = [x for x in res['violations'] if x['signature'] == sig][0]
-        replay_path = core.write_replay(pid, small, v, res['digest'])
-        out_lines.append('violation %s (run idx %d, seed %d) detail=%s' % (
-            sig, viol['idx'], seed, json.dumps(v['detail'], default=str)[:600]))
+        replay_path = core.write_replay(pid, small, v, res['digest'], prefix=prefix)
+        out_lines.append('violation %s (run idx %d, seed %d%s) detail=%s' % (
+            sig, viol['idx'], seed,
+            ', after %d earlier run(s) in the same process' % len(prefix) if prefix else '',
+            json.dumps(v['detail'], default=str)[:600]))
         out_lines.append('VIOLATION property=%s replay=%s' % (pid, replay_path))
         status = 1
 
